@@ -206,6 +206,7 @@ type mMate struct {
 }
 
 type mUnit struct {
+	Src      string // source text of a seeded random interface ("" for the fixed corpus)
 	Iface    mIface
 	Variant  mVariant
 	Mate     *mMate
@@ -215,14 +216,27 @@ type mUnit struct {
 }
 
 type mEnv struct {
-	dir    string
-	driver string
-	units  []*mUnit
-	instr  []map[string]any
-	genS   float64
+	dir         string
+	driver      string
+	units       []*mUnit
+	rnd         []rndIface
+	rndRejected string
+	instr       []map[string]any
+	genS        float64
 }
 
 var menv *mEnv
+
+// mExtraSrc, when set before mPrepare (replay of a case on a seeded random interface), replaces the
+// seed-derived random interfaces by exactly the ones named here.
+var mExtraSrc []rndIface
+
+func mRndCount(tier string) int {
+	if tier == "thorough" {
+		return 48
+	}
+	return 10
+}
 
 func mGoEnv() []string {
 	return core.GoEnv("GOFLAGS=-mod=mod", "GOWORK=off", "GONOSUMDB=*", "GONOSUMCHECK=1", "GOSUMDB=off")
@@ -262,14 +276,38 @@ func mPrepare(c *core.Ctx) {
 	c.PrepareRepo(true)
 	e := &mEnv{dir: filepath.Join(c.Scratch, "msimrun")}
 	os.MkdirAll(filepath.Join(e.dir, "corpus"), 0o755)
-	os.WriteFile(filepath.Join(e.dir, "corpus", "corpus.go"), []byte(mCorpusSrc), 0o644)
 	// phase 1: a self-contained module (as the worlds of engine W) in which mockery runs
 	os.WriteFile(filepath.Join(e.dir, "go.mod"), []byte(world.GoMod(mMod)), 0o644)
 	os.WriteFile(filepath.Join(e.dir, "go.sum"), []byte(world.GoSum), 0o644)
+	rnd := mExtraSrc
+	if rnd == nil {
+		rnd = mRandomIfaces(c.Seed, mRndCount(c.Tier))
+	}
+	os.WriteFile(filepath.Join(e.dir, "corpus", "corpus.go"), []byte(mCorpusWith(rnd)), 0o644)
+	if r := core.RunCmd(e.dir, mGoEnv(), 10*time.Minute, "go", "build", "./corpus"); r.Exit != 0 {
+		// the grammar emitted something that is not Go: the harness's fault, never a verdict; carry on
+		// with the fixed library and say so
+		fmt.Printf("NOTE: the seeded random interfaces do not compile and are left out: %s\n", tailStr(r.Stderr+r.Stdout, 400))
+		e.rndRejected = tailStr(r.Stderr+r.Stdout, 400)
+		if mExtraSrc != nil {
+			core.Troublef("the interface of the replayed case does not compile: %s", e.rndRejected)
+		}
+		rnd = nil
+		os.WriteFile(filepath.Join(e.dir, "corpus", "corpus.go"), []byte(mCorpusWith(nil)), 0o644)
+	}
+	e.rnd = rnd
 	for _, v := range mVariants {
 		for _, ifc := range mIfaces {
 			u := &mUnit{Iface: ifc, Variant: v, Pkg: strings.NewReplacer("-", "_", "@", "_at_").Replace(v.Name) + "_" + strings.ToLower(ifc.Name)}
 			e.units = append(e.units, u)
+		}
+	}
+	for _, v := range mVariants {
+		if !mRndVariants[v.Name] {
+			continue
+		}
+		for _, ri := range rnd {
+			e.units = append(e.units, &mUnit{Src: ri.Src, Iface: mIface{ri.Name, ""}, Variant: v, Pkg: strings.NewReplacer("-", "_", "@", "_at_").Replace(v.Name) + "_" + strings.ToLower(ri.Name)})
 		}
 	}
 	// two mocks in one output file, with different effective options
@@ -393,8 +431,8 @@ func mPrepare(c *core.Ctx) {
 		if u.Variant.Style == "testify" {
 			newExpr = fmt.Sprintf("func(t *msim.RecT) any { return %s.NewMock%s%s(t) }", u.Pkg, u.Iface.Name, u.Iface.TypeArgs)
 		}
-		fmt.Fprintf(&b, "\t\t{Variant: %q, Style: %q, Opts: %s, Iface: %q, IfaceType: reflect.TypeOf((*corpus.%s%s)(nil)).Elem(), New: %s},\n",
-			u.Variant.Name, u.Variant.Style, opts, u.Iface.Name, u.Iface.Name, u.Iface.TypeArgs, newExpr)
+		fmt.Fprintf(&b, "\t\t{Variant: %q, Style: %q, Opts: %s, Iface: %q, IfaceType: reflect.TypeOf((*corpus.%s%s)(nil)).Elem(), New: %s, Src: %q},\n",
+			u.Variant.Name, u.Variant.Style, opts, u.Iface.Name, u.Iface.Name, u.Iface.TypeArgs, newExpr, u.Src)
 		if u.Mate != nil {
 			mopts := "map[string]bool{"
 			for _, k := range core.SortedKeys(u.Mate.Opts) {
@@ -559,6 +597,7 @@ func runM(c *core.Ctx) int {
 		"instrumentation":            map[string]int{"scheduling_points_inserted": steps, "access_probes_inserted": accesses, "files": len(menv.instr)},
 		"distinct_schedules_measure": "distinct (lock acquisition order, task count, scheduler choice list) triples",
 		"pipeline_build_s":           menv.genS,
+		"seeded_random_interfaces":   mRndSummary(),
 		"components":                 map[string]any{"real": []string{"mockery CLI (generation)", "generated mock code", "github.com/stretchr/testify/mock", "reflect"}, "instrumented": []string{"generated mock files: scheduling points, access probes, sync → simsync"}, "stub": []string{"sync.RWMutex/Mutex (simulated, Go semantics incl. writer preference)", "testing.T (recording TestingT)", "user Func fields / Run callbacks (recording dispatchers)"}},
 	}
 	if first != nil {
@@ -569,6 +608,17 @@ func runM(c *core.Ctx) int {
 		res.First = &Outcome{Sig: &sig, Expected: first.Violation.Expected, Observed: first.Violation.Observed}
 	}
 	return res.Finish(c, sp.level, cov, sp.assumptions, sp.summary)
+}
+
+// mBeforeReplay runs before the pipeline is built for `check replay`: a case on a seeded random
+// interface brings the interface's source text with it.
+func mBeforeReplay(rp *core.Replay) {
+	var cs msim.Case
+	if err := json.Unmarshal(rp.Case, &cs); err == nil && cs.IfaceSrc != "" {
+		if m := regexp.MustCompile(`^type (\w+) interface`).FindStringSubmatch(cs.IfaceSrc); m != nil {
+			mExtraSrc = []rndIface{{Name: m[1], Src: cs.IfaceSrc}}
+		}
+	}
 }
 
 func replayM(c *core.Ctx, rp *core.Replay) (bool, string) {
@@ -595,6 +645,19 @@ func init() {
 		Runners[p] = runM
 		Preparers[p] = mPrepare
 		Replayers[p] = replayM
+		BeforeReplay[p] = mBeforeReplay
 	}
 	_ = sort.Strings
+}
+
+func mRndSummary() map[string]any {
+	var names, srcs []string
+	for _, ri := range menv.rnd {
+		names = append(names, ri.Name)
+		if len(srcs) < 3 {
+			srcs = append(srcs, ri.Src)
+		}
+	}
+	return map[string]any{"count": len(menv.rnd), "names": names, "samples": srcs, "rejected": menv.rndRejected,
+		"note": "drawn from VERIF_SEED through a type grammar (scalars, named types, slices, arrays, pointers, maps, channels, anonymous structs, interface types; func types at top level only; variadics; named/unnamed/blank parameters; named results; error at any position); generated for " + fmt.Sprint(len(mRndVariants)) + " option sets each"}
 }
